@@ -369,6 +369,73 @@ func c10Exec(c fw.Case) *fw.Result {
 				els[i] = &osm.Relation{ID: osm.RelationID(t.ref), Version: t.ver}
 			}
 		}
+		// the collection helpers must agree with the per-element ids (before sorting)
+		if ids := els.ElementIDs(); len(ids) == len(eids) {
+			for i := range ids {
+				if ids[i] != eids[i] {
+					res.Violatef("C10/helpers/Elements.ElementIDs", "Elements.ElementIDs()[%d] = %v, element says %v", i, ids[i], eids[i])
+					break
+				}
+			}
+		} else if len(ts) > 0 {
+			res.Violatef("C10/helpers/Elements.ElementIDs", "Elements.ElementIDs() has %d entries for %d elements", len(ids), len(eids))
+		}
+		if ids := els.FeatureIDs(); len(ids) == len(fids) {
+			for i := range ids {
+				if ids[i] != fids[i] {
+					res.Violatef("C10/helpers/Elements.FeatureIDs", "Elements.FeatureIDs()[%d] = %v, element says %v", i, ids[i], fids[i])
+					break
+				}
+			}
+		}
+		// per-kind collections: SortByIDVersion orders by id, then version
+		var ns osm.Nodes
+		var ws osm.Ways
+		var rs osm.Relations
+		for _, t := range ts {
+			switch t.kind {
+			case osm.TypeNode:
+				ns = append(ns, &osm.Node{ID: osm.NodeID(t.ref), Version: t.ver})
+			case osm.TypeWay:
+				ws = append(ws, &osm.Way{ID: osm.WayID(t.ref), Version: t.ver})
+			default:
+				rs = append(rs, &osm.Relation{ID: osm.RelationID(t.ref), Version: t.ver})
+			}
+		}
+		ns.SortByIDVersion()
+		ws.SortByIDVersion()
+		rs.SortByIDVersion()
+		for i := 1; i < len(ns); i++ {
+			if ns[i-1].ID > ns[i].ID || (ns[i-1].ID == ns[i].ID && ns[i-1].Version > ns[i].Version) {
+				res.Violatef("C10/sort-nodes", "Nodes.SortByIDVersion: position %d (%d v%d) before (%d v%d)", i, ns[i-1].ID, ns[i-1].Version, ns[i].ID, ns[i].Version)
+				break
+			}
+		}
+		for i := 1; i < len(ws); i++ {
+			if ws[i-1].ID > ws[i].ID || (ws[i-1].ID == ws[i].ID && ws[i-1].Version > ws[i].Version) {
+				res.Violatef("C10/sort-ways", "Ways.SortByIDVersion out of order at %d", i)
+				break
+			}
+		}
+		for i := 1; i < len(rs); i++ {
+			if rs[i-1].ID > rs[i].ID || (rs[i-1].ID == rs[i].ID && rs[i-1].Version > rs[i].Version) {
+				res.Violatef("C10/sort-relations", "Relations.SortByIDVersion out of order at %d", i)
+				break
+			}
+		}
+		o := &osm.OSM{Nodes: ns, Ways: ws, Relations: rs}
+		all := o.ElementIDs()
+		if len(all) != len(ns)+len(ws)+len(rs) {
+			res.Violatef("C10/helpers/OSM.ElementIDs", "OSM.ElementIDs() has %d entries for %d elements", len(all), len(ns)+len(ws)+len(rs))
+		}
+		nn, nw, nr := all.Counts()
+		if nn != len(ns) || nw != len(ws) || nr != len(rs) {
+			res.Violatef("C10/helpers/ElementIDs.Counts", "ElementIDs.Counts() = %d,%d,%d for %d nodes, %d ways, %d relations", nn, nw, nr, len(ns), len(ws), len(rs))
+		}
+		fn, fw2, fr := o.FeatureIDs().Counts()
+		if fn != len(ns) || fw2 != len(ws) || fr != len(rs) {
+			res.Violatef("C10/helpers/FeatureIDs.Counts", "FeatureIDs.Counts() = %d,%d,%d", fn, fw2, fr)
+		}
 		eids.Sort()
 		fids.Sort()
 		els.Sort()
